@@ -180,14 +180,48 @@ def parseOp : P (Op × Res) := do
     pure (.discard k, .unit)
   | _ => fail s!"bad op {t}"
 
+open P in
+/-- an operation with its result and, for a discard, the number of readable bytes the real buffer
+reported right after it (`BytesReadable`) -/
+def parseOpObs : P (Op × Res × Option Nat) := do
+  let (o, r) ← parseOp
+  match o with
+  | .discard _ => do
+    let pk ← peek
+    match pk.bind String.toNat? with
+    | some n => do let _ ← tok; pure (o, r, some n)
+    | none => pure (o, r, none)
+  | _ => pure (o, r, none)
+
+/-- where did a discard leave the REAL read position?  `|W| − readable` (unless the count is clamped).
+It must be the last stride boundary; staying where it was, off the boundary, is the other way to fail
+the clause (the known finding is the backwards move). -/
+def chkObs (cap : Nat) (a : Ab) : List (Op × Res × Option Nat) → Option String
+  | [] => none
+  | (o, r, ob) :: rest =>
+    match o, ob with
+    | .discard k, some rd =>
+      let np := a.W.length - a.W.length % k
+      if rd + 1 ≥ cap ∨ rd > a.W.length then none else
+      let posImpl := a.W.length - rd
+      if posImpl = np then (if np < a.pos then none else chkObs cap { a with pos := np } rest)
+      else if posImpl = a.pos ∧ np < a.pos then
+        some s!"C18:discard-off-boundary DiscardStride({k}) left the read position at {posImpl}, not on a stride boundary (last boundary {np}, {a.W.length} bytes accepted)"
+      else
+        some s!"C18:discard-wrong-position DiscardStride({k}) left the read position at {posImpl}; the last stride boundary is {np} (read position before: {a.pos}, {a.W.length} bytes accepted)"
+    | _, _ =>
+      match chkStep cap a o r with
+      | .ok a' => chkObs cap a' rest
+      | .error _ => none
+
 def resEq : Res → Res → Bool
   | .unmodelled, _ => true
   | a, b => a == b
 
 def runLine (ts : List String) : Verdict :=
-  let p : P (Nat × List (Op × Res) × Option String) := do
+  let p : P (Nat × List (Op × Res × Option Nat) × Option String) := do
     P.kw "cap"; let cap ← P.nat
-    P.kw "ops"; let ops ← P.list parseOp
+    P.kw "ops"; let ops ← P.list parseOpObs
     let pk ← P.peek
     if pk == some "PANIC" then
       let _ ← P.tok
@@ -196,7 +230,11 @@ def runLine (ts : List String) : Verdict :=
     else pure (cap, ops, none)
   match P.run p ts with
   | .error e => .bad e
-  | .ok (cap, ors, panicked) =>
+  | .ok (cap, orsObs, panicked) =>
+    match chkObs cap { W := [], pos := 0 } orsObs with
+    | some e => .viol e
+    | none =>
+    let ors := orsObs.map fun x => (x.1, x.2.1)
     let ops := ors.map (·.1)
     let impl := ors.map (·.2)
     let (_, mres) := runOps (RB.create cap) ops
